@@ -11,11 +11,12 @@ PROP = {
             'schedule; Parallel: 1..4 actions back to back, built with -race). Non-trivial = at some quiescent point two workers were inside '
             'Evict (API call in flight or queued on the evictor\'s lock) for one capped scope with exactly one slot left. (a) '
             'arbitrationRounds: rapid state machine over a fake API (1-3 nodes, 1-3 namespaces, 1-4 workloads with 1..11 replicas and '
-            'ready/not-ready pods, bare pods, pods with max eviction cost; limits global / node / namespace in {unset, 0, 1..3}, per-workload '
+            'ready/not-ready pods, replicas in graceful deletion that are still Running+Ready, bare pods, pods with max eviction cost; limits global / node / namespace in {unset, 0, 1..3}, per-workload '
             'migrating / unavailable in {unset, 1..3, 10..100%}; pre-existing running and passed-pending jobs that may already exceed a '
             'limit) with actions descheduler-evict (gated by arbitrator.Filter), external job, job starts running, running job evicts its '
-            'pod (+ not-ready replacement), job succeeds / fails / aborted, job deleted, pod readiness flips, pod vanishes, arbitration '
-            'round; every case ends with a round. Non-trivial = before some round a limited scope had exactly one free slot and at least two '
+            'pod (+ not-ready replacement), job succeeds / fails / aborted, job deleted, pod readiness flips, pod starts terminating, pod '
+            'vanishes, arbitrator restart (new arbitratorImpl with empty in-memory state on the same fake API, every non-finished job '
+            'replayed through the real create-event handler in a drawn order), arbitration round; every case ends with a round. Non-trivial = before some round a limited scope had exactly one free slot and at least two '
             'admissible waiting jobs. distinct = FNV-64 of caps/limits + full history.',
     'assumptions': [
         'evictions issued = eviction API calls answered with success by the (fake) API server; a failed call evicts nothing and may be '
@@ -33,7 +34,9 @@ PROP = {
         'never more than the replicas), restated independently in the harness',
         'the controller finder is a harness fake (pods of a workload = pods in the fake API controlled by it; replicas = workload spec); '
         'job creation timestamps are distinct seconds so that the processing order of a round does not depend on Go map iteration',
-        'arbitrator restarts (empty in-memory arbitrated set with passed-pending jobs in the API) are not modelled',
+        'unavailable pod of a workload = not Ready, or phase Succeeded/Failed, or being deleted (deletionTimestamp set), i.e. not '
+        '(IsPodActive && Ready) in kube terms; a terminating pod is also a non-headroom reason for its own job to fail',
+        'a restart replays only the jobs that are not finished (phase "", Pending, Running)',
         'Parallel tests: the Go scheduler decides the order inside a batch, so which interleaving is explored is not a pure function of the '
         'seed there (the oracle holds for every interleaving of correct code); the Interleaved tests are deterministic',
     ],
@@ -73,7 +76,7 @@ PROP = {
                 'be waiting and Pending, and Filter must refuse a pod that has a live job. Exploration, not proof: interleavings are sampled '
                 'at the granularity of the API call; absence of violations over the sampled cases.',
         'note': 'fake clientset / controller-runtime fake client with the field indexes; harness controller finder; evict-annotation override '
-                'and arbitrator restart not generated; one live job per pod; rapid\'s PRNG and shrinker; inside a Parallel batch the Go '
+                'not generated; one live job per pod; rapid\'s PRNG and shrinker; inside a Parallel batch the Go '
                 'scheduler is not controlled',
     },
 }
